@@ -160,7 +160,10 @@ Section Loop.
           let al := map choice_of allocs in
           let '(st', e', mout) := step (a_st a) (mkE w al (map dec_cot cots) (map dec_cot pcots) (a_tr a)) o in
           let w1 := co_run (ew e') (dec_cot after) in
-          let ag := cv_eqb mout out && cv_eqb (enc_state st') stv in
+          (* every callback and every pool operation the implementation made was one of the model's
+           (a surplus mcache.Malloc/Free or io call leaves its co-tenant script unconsumed) *)
+        let used := match eadv e', epool e' with [], [] => true | _, _ => false end in
+        let ag := cv_eqb mout out && cv_eqb (enc_state st') stv && used in
           let sp := (Z.of_nat (length (wh w1)) =? nids)%Z in
           mkA st' w1 (eev e') ag (a_agree a && ag) (spec_obs && sp)
               (a_reuse a || (length (wh w1) <? length (filter is_born (eev e')))%nat)
